@@ -265,6 +265,29 @@ def generate(repo):
         d = _eval_f32_expr(g, rel)
         lits[key] = i16f16_from_f32(f32_div(f32_mul(d, PI32), f32(180.0)))
 
+    # ---- derived table (a cache for the kernel; EG.Lemmas.FixedTrigNormals proves it equal to the model's functions) ----
+    def sin_deg(k):
+        d = k % lits["degModulus"]
+        if d <= lits["sinQ1"]:
+            i, sign = d, 1
+        elif d <= lits["sinQ2"]:
+            i, sign = lits["sinM2"] - d, 1
+        elif d <= lits["sinQ3"]:
+            i, sign = d - lits["sinM3"], -1
+        else:
+            i, sign = lits["sinM4"] - d, -1
+        if not (0 <= i < len(table)):
+            raise TieError(f"src/geometry/angle.rs: quadrant chain indexes SIN[{i}] for degree {d}")
+        return sign * table[i]
+
+    def trunc_div(a, b):
+        return abs(a) // b * (1 if a >= 0 else -1)
+
+    unit = 65536 // lits["trigNormalVectorScale"] if lits["trigNormalVectorScale"] > 0 and 65536 % lits["trigNormalVectorScale"] == 0 else None
+    if unit is None:
+        raise TieError("NORMAL_VECTOR_SCALE does not divide 65536: the derived normal table cannot be computed")
+    normal_rows = [(trunc_div(sin_deg(k), unit), trunc_div(sin_deg(k + 90), unit), trunc_div(sin_deg(k + 91), unit)) for k in range(360)]
+
     # ---- output ------------------------------------------------------------------------------------
     o = []
     o.append("/-\n  GENERATED by tools/tr_trig.py from /repo/src/geometry/{real,angle}.rs, src/primitives/common/{linear_equation,plane_sector}.rs,\n"
@@ -298,6 +321,16 @@ def generate(repo):
     }
     for k in doc:
         o.append(f"/-- {doc[k]} -/\ndef {k} : Int := {lits[k]}\n")
+    o.append("\n/-- DERIVED (not read from the source; proved equal to the model's functions in EG.Lemmas.FixedTrigNormals, so\n"
+             "that the kernel evaluates them once): for the whole degrees `k = 0..359` the integer part toward zero of\n"
+             "`1024 sin k`, `1024 sin (k + 90)`, `1024 sin (k + 91)` by the table (the components of the normal vectors),\n"
+             "each OFFSET by `NORMAL_VECTOR_SCALE` (so that they are naturals: kernel arithmetic on `Nat` literals is fast). -/\n")
+    o.append("def normalTableNat : List (Nat × Nat × Nat) := [\n")
+    off = lits["trigNormalVectorScale"]
+    if any(v + off < 0 for r in normal_rows for v in r):
+        raise TieError("derived normal table: a component is below -NORMAL_VECTOR_SCALE")
+    o.append(",\n".join("  " + ", ".join(f"⟨{a + off}, {b + off}, {c + off}⟩" for (a, b, c) in normal_rows[i:i + 6]) for i in range(0, 360, 6)))
+    o.append("\n]\n")
     o.append("\nend EG.Generated\n")
     info = {"sin_table_entries": len(table), "literals": lits}
     return {"TrigTable.lean": "".join(o)}, info
